@@ -31,4 +31,8 @@ def build(repo, tier, seed):
     b["assumptions"] += ["INV (cache invariant) is preserved by every store: obligation Cached:L7:stores-the-memo-free-value; that INV then holds along every "
                          "history is lean/Histories.lean",
                          "graph-mutating operations (register, set_dispatch, add_effects, set_cache) between a store and its hit are outside the transparency statement (C07 covers registration)"]
+    from . import frame_state
+    b["syntactic"] += frame_state.obligations(repo)
+    b["assumptions"].append("no hidden state: outside constructors and the declared mutators (Overloaded.register/__setstate__, Dataset.set_dispatch/set_cache/enable_effects/disable_effects, "
+                            "MemoryCache.set) no method of a class reaching the labrea ABCs stores into its receiver, its class or a module global (AST frame, group <Class>:frame)")
     return b
